@@ -153,9 +153,9 @@ Lemma edge_to_src g src t : In t (edge_to g src) -> from_src t src.
 Proof. unfold edge_to. intros H. repeat adj; split; simpl; auto; discriminate. Qed.
 Lemma edge_from_src g src t : In t (edge_from g src) -> from_src t src.
 Proof. unfold edge_from. intros H. repeat adj; split; simpl; auto; discriminate. Qed.
-Lemma unwind_of_src f src t : In t (unwind_of f src) -> from_src t src.
+Lemma unwind_of_src f src t : t_cur src <> None -> In t (unwind_of f src) -> from_src t src.
 Proof.
-  unfold unwind_of. intros H. destruct (t_cur src) eqn:Ec; [|destruct H].
+  unfold unwind_of. intros Hsrc H. destruct (t_cur src) eqn:Ec; [|congruence].
   assert (exists v, t = unwind_set src e (unwind_key f) v) as [v ->].
   { destruct (look src f) as [[| | | | [|x r] |]|]; simpl in H;
     repeat match goal with
@@ -182,10 +182,10 @@ Proof. unfold revivable. intros ->. reflexivity. Qed.
 Lemma wk_nonrev d mt t : is_elem d = false -> revivable d = false -> wk (d, mt) t.
 Proof. intros H1 H2. split; simpl; intros; congruence. Qed.
 
-Theorem step_sound g ts s ts' travs :
+Theorem step_sound g ts s ts' travs : is_null_move s = false ->
   type_step ts s = Some ts' -> Forall (wk ts) travs -> Forall (wk ts') (step g (fst ts) s travs).
 Proof.
-  destruct ts as [d mt]. intros Hty Hwk. rewrite Forall_forall in *. intros t Hin.
+  destruct ts as [d mt]. intros Hnn Hty Hwk. rewrite Forall_forall in *. intros t Hin.
   assert (forall src, In src travs -> wk (d, mt) src) as Hsrc by auto.
   destruct s; cbn [type_step] in Hty; cbn [step fst] in Hin.
   - (* V *) destruct (dtype_eqb d DNone) eqn:Ed; inversion Hty; subst. destruct d; try discriminate.
@@ -218,6 +218,10 @@ Proof.
   - (* bothE *) destruct (dtype_eqb d DVertex) eqn:Ed; inversion Hty; subst. destruct d; try discriminate.
     apply in_flat_map in Hin as [src [Hs Hin]]. apply (wk_moved (DVertex, mt) DEdge t src); auto.
     apply in_app_or in Hin as [Hin|Hin]; eauto using ine_of_src, oute_of_src.
+  - discriminate Hnn.
+  - discriminate Hnn.
+  - discriminate Hnn.
+  - discriminate Hnn.
   - (* has *) destruct (is_elem d); inversion Hty; subst. apply filter_In in Hin as [Hin _]. auto.
   - destruct (is_elem d && _); inversion Hty; subst. apply filter_In in Hin as [Hin _]. auto.
   - destruct (is_elem d && _); inversion Hty; subst. apply filter_In in Hin as [Hin _]. auto.
@@ -246,7 +250,7 @@ Proof.
   - (* path *) destruct (is_elem d); inversion Hty; subst. apply wk_nonrev; reflexivity.
   - (* unwind *) destruct (is_elem d) eqn:Ed; inversion Hty; subst.
     apply in_flat_map in Hin as [src [Hs Hin]]. apply (wk_moved (d, mt) d t src); auto. now apply elem_revivable.
-    eauto using unwind_of_src.
+    eapply unwind_of_src; eauto. now apply (Hsrc src Hs).
   - (* distinct *) destruct (is_elem d); inversion Hty; subst. eapply Hsrc, sublist_In; [apply distinct_go_sublist|exact Hin].
   - (* count *) inversion Hty; subst. apply wk_nonrev; reflexivity.
   - inversion Hty; subst. eapply Hsrc, sublist_In; [apply sublist_firstn|exact Hin].
@@ -255,17 +259,62 @@ Proof.
 Qed.
 
 (* whole programs: every intermediate and final traveler of a well-typed program is well-kinded *)
-Theorem run_sound g : forall p ts travs ts' out,
+Definition null_free (p : list stmt) : bool := forallb (fun s => negb (is_null_move s)) p.
+Theorem run_sound g : forall p ts travs ts' out, null_free p = true ->
   run_from g ts p travs = Some (ts', out) -> Forall (wk ts) travs -> Forall (wk ts') out.
 Proof.
-  induction p as [|s p IH]; intros ts travs ts' out H Hwk; cbn [run_from] in H.
+  induction p as [|s p IH]; intros ts travs ts' out Hnf H Hwk; cbn [run_from] in H.
   - inversion H; subst. exact Hwk.
-  - destruct (type_step ts s) as [ts1|] eqn:E; [|discriminate].
-    eapply IH; eauto. eapply step_sound; eauto.
+  - cbn [null_free forallb] in Hnf. apply andb_true_iff in Hnf as [Hs Hnf].
+    destruct (type_step ts s) as [ts1|] eqn:E; [|discriminate].
+    eapply IH; eauto. eapply step_sound; eauto. now apply negb_true_iff in Hs.
+Qed.
+
+(* the null-producing moves: the rows of the plain move, plus the traveler itself without a current element for every
+   traveler the plain move leads nowhere from -- nothing else, and no traveler is lost *)
+Definition has_cur (t : trav) : bool := match t_cur t with Some _ => true | None => false end.
+Lemma filter_app {X} (f : X -> bool) a b : filter f (a ++ b) = filter f a ++ filter f b.
+Proof. induction a as [|x a IH]; simpl; auto. destruct (f x); simpl; now rewrite IH. Qed.
+Lemma or_null_split (f : trav -> list trav) ts :
+  (forall t x, In x (f t) -> has_cur x = true) ->
+  filter has_cur (flat_map (fun t => or_null t (f t)) ts) = flat_map f ts /\
+  (List.length (filter (fun x => negb (has_cur x)) (flat_map (fun t => or_null t (f t)) ts))
+    = List.length (filter (fun t => match f t with [] => true | _ => false end) ts)).
+Proof.
+  intros Hf. induction ts as [|t ts [IH1 IH2]]; [split; reflexivity|]. cbn [flat_map]. rewrite !filter_app, app_length, IH1, IH2.
+  assert (forall l, (forall x, In x l -> has_cur x = true) -> filter has_cur l = l /\ filter (fun x => negb (has_cur x)) l = []) as Hall.
+  { induction l as [|x l IHl]; intros Hl; [split; reflexivity|]. simpl. rewrite (Hl x (or_introl eq_refl)). simpl.
+    destruct IHl as [-> ->]; [intros y Hy; apply Hl; now right|]. split; reflexivity. }
+  unfold or_null at 1 2. destruct (f t) as [|x l] eqn:Ef.
+  - cbn [filter]. rewrite Ef. split; reflexivity.
+  - destruct (Hall (x :: l)) as [-> ->]; [intros y Hy; apply (Hf t); now rewrite Ef|]. cbn [filter]. rewrite Ef. split; reflexivity.
 Qed.
 
 Lemma wk_t0 : wk (DNone, []) t0.
 Proof. split; simpl; [discriminate|]. intros _ m d H. discriminate. Qed.
+
+Lemma from_src_has_cur t src : from_src t src -> has_cur t = true.
+Proof. intros [H _]. unfold has_cur. destruct (t_cur t); congruence. Qed.
+Definition nowhere (f : trav -> list trav) (t : trav) : bool := match f t with [] => true | _ => false end.
+Theorem null_moves g ls ts :
+  let nulls (l : list trav) := List.length (filter (fun x => negb (has_cur x)) l) in
+  (filter has_cur (step g DVertex (SOutNull ls) ts) = step g DVertex (SOut ls) ts /\
+   nulls (step g DVertex (SOutNull ls) ts) = List.length (filter (nowhere (out_of g ls)) ts)) /\
+  (filter has_cur (step g DVertex (SInNull ls) ts) = step g DVertex (SIn ls) ts /\
+   nulls (step g DVertex (SInNull ls) ts) = List.length (filter (nowhere (in_of g ls)) ts)) /\
+  (filter has_cur (step g DVertex (SOutENull ls) ts) = step g DVertex (SOutE ls) ts /\
+   nulls (step g DVertex (SOutENull ls) ts) = List.length (filter (nowhere (oute_of g ls)) ts)) /\
+  (filter has_cur (step g DVertex (SInENull ls) ts) = step g DVertex (SInE ls) ts /\
+   nulls (step g DVertex (SInENull ls) ts) = List.length (filter (nowhere (ine_of g ls)) ts)).
+Proof.
+  cbn [step]. unfold nowhere. repeat split;
+    apply (or_null_split _ ts); intros t x Hx;
+    eauto using from_src_has_cur, out_of_src, in_of_src, oute_of_src, ine_of_src.
+Qed.
+(* from an edge the null-producing moves are the plain ones (compile.go gives them the same processor) *)
+Lemma null_moves_from_edge g ls ts :
+  step g DEdge (SOutNull ls) ts = step g DEdge (SOut ls) ts /\ step g DEdge (SInNull ls) ts = step g DEdge (SIn ls) ts.
+Proof. split; reflexivity. Qed.
 
 (* ---------- 3. order independence: row-wise steps and count map permuted inputs to permuted outputs ---------- *)
 Lemma flat_map_perm {X Y} (f : X -> list Y) a b : Permutation a b -> Permutation (flat_map f a) (flat_map f b).
